@@ -1,13 +1,15 @@
 (* C01 — executable model of cffi's struct/union layout computation.
 
    Code modelled (line numbers of /repo/src/c/_cffi_backend.c at the pinned commit):
-     b_complete_struct_or_union_lock_held   5149-5518   (field loop, all three bit-field conventions)
-     complete_sflags                        5095-5121   (x86-64 Linux: GCC_X86 + LITTLE_ENDIAN)
-     ROUNDUP_BYTES                          5145
-     get_alignment                          1871-1905
-     _add_field                             5045-5076   (names are not modelled: only "is the name empty")
-   and, on the Python side, model.py StructOrUnion.finish_backend_type 403-424 (how `packed`
-   becomes (sflags, pack)) and cparser.py 372-384 (cdef(packed=True) -> packed = 1).
+     b_complete_struct_or_union_lock_held   5197-5568   (field loop, all three bit-field conventions)
+     complete_sflags                        5143-5169   (x86-64 Linux: GCC_X86 + LITTLE_ENDIAN)
+     ROUNDUP_BYTES                          5193
+     get_alignment                          1908-1942
+     _add_field                             5094-5125   (names are not modelled: only "is the name empty")
+   (header refreshed at /repo 2d93229; the line comments inside the definitions below were written
+   48 lines earlier: add 48 to them)
+   and, on the Python side, model.py StructOrUnion.finish_backend_type 403-428 (how `packed`
+   becomes (sflags, pack)) and cparser.py 387-405 (cdef(packed=True) -> packed = 1).
 
    The state variables keep the names of the C code (byteoffset, bitoffset, byteoffsetmax,
    alignment, prev_bitfield_size, prev_bitfield_free) so that the model reads against the source.
@@ -266,6 +268,32 @@ Definition observe (r : res tinfo) : option (Z * Z * list (Z * Z * Z * Z)) :=
   | Ok ti => Some (ti_size ti, ti_align ti,
                    map (fun c => (cf_offset c, cf_bitshift c, cf_bitsize c, cf_flags c)) (ti_fields ti))
   | Err _ => None
+  end.
+
+(* ---- "a field access stays inside the object" (C01_fields_within_object).
+   size_of: ct_size of a field's type as the layout function itself computes it (0 for `T x[]`,
+   whose ct_size is -1: the flexible tail is outside sizeof). *)
+Definition size_of (t : ctype) : Z :=
+  match cffi_layout t with Ok ti => Z.max 0 (ti_size ti) | Err _ => 0 end.
+(* a bit-field's bits lie inside its storage unit of size_of(cf_type) bytes at cf_offset *)
+Definition bits_in_unit (c : cfield) : Prop :=
+  0 <= cf_bitsize c ->
+  1 <= cf_bitsize c /\ 0 <= cf_bitshift c /\ cf_bitshift c + cf_bitsize c <= 8 * size_of (cf_type c) /\
+  bitfield_capable (cf_type c) = true.
+Definition field_within (size : Z) (c : cfield) : Prop :=
+  0 <= cf_offset c /\ cf_offset c + size_of (cf_type c) <= size /\ bits_in_unit c.
+
+(* the absolute bit range [fstart, fend) a field occupies: its bits for a bit-field, its bytes otherwise *)
+Definition is_bf (c : cfield) : bool := 0 <=? cf_bitsize c.
+Definition fstart (c : cfield) : Z := 8 * cf_offset c + (if is_bf c then cf_bitshift c else 0).
+Definition fend (c : cfield) : Z :=
+  if is_bf c then 8 * cf_offset c + cf_bitshift c + cf_bitsize c
+  else 8 * (cf_offset c + size_of (cf_type c)).
+(* the fields, in order, occupy consecutive non-overlapping ranges between lo and hi *)
+Fixpoint chain (lo : Z) (l : list cfield) (hi : Z) : Prop :=
+  match l with
+  | [] => lo <= hi
+  | c :: l' => lo <= fstart c /\ fstart c <= fend c /\ chain (fend c) l' hi
   end.
 
 (* ---- wire format for the correspondence check.  Monomorphic constructors only: Coq elaborates a
